@@ -1417,7 +1417,13 @@ impl Sim {
             self.dead = true;
             return StepOut::Dead;
         }
-        let frozen: Vec<bool> = before_obs.iter().map(|b| b.1.is_none()).collect();
+        // a parameter holds no gradient if its slot is empty - or if an earlier parameter of the list is
+        // another handle of the same array and has consumed the shared gradient already
+        let list_nodes: Vec<usize> = slots.iter().map(|s| self.info[*s].as_ref().unwrap().node).collect();
+        let frozen: Vec<bool> = before_obs.iter().enumerate().map(|(k, b)| b.1.is_none() || list_nodes[..k].contains(&list_nodes[k])).collect();
+        if (0..slots.len()).any(|k| list_nodes[..k].contains(&list_nodes[k])) {
+            self.fault("F9_parameter_listed_twice_through_clones");
+        }
         let nfrozen_mid = frozen.iter().enumerate().any(|(i, f)| *f && i + 1 < frozen.len() && frozen[i + 1..].iter().any(|x| !*x));
         let shapes: BTreeSet<&Vec<usize>> = before_obs.iter().map(|b| &b.0.dims).collect();
         if nfrozen_mid {
@@ -1443,9 +1449,12 @@ impl Sim {
                 (Obs::of(h), g, read_flag(h))
             };
             let class = format!("param {} of {} dims {:?} frozen {:?}", k, slots.len(), old.dims, frozen);
-            match g {
+            let alias_frozen = frozen[k] && g.is_some();
+            let eff_g = if frozen[k] { &None } else { g };
+            match eff_g {
                 None => {
-                    if now != *old || now_g.is_some() || now_flag != *flag {
+                    // (a later alias of an updated parameter: its shared gradient was consumed through the earlier handle)
+                    if now != *old || (now_g.is_some() && !alias_frozen) || now_flag != *flag {
                         self.viol("C13", "frozen_parameter_changed", class, format!("parameter s{} holds no gradient but was changed by update", s));
                     }
                 }
